@@ -68,6 +68,12 @@ pub fn cases(thorough: bool) -> Vec<ECase> {
     // send window shared by three streams, one of which is reset while acknowledged ranges may sit behind a gap
     add("sendwin6000-reset".into(), &|c| c.client.send_window = Some(6000), plan(vec![StreamPlan { dir: Dir::Uni, len: 12000, chunk: 1000, end: End::Reset { after: 7000, code: 6 } }, sp(Dir::Uni, 8000, 1000), sp(Dir::Uni, 8000, 1000)]), plan(vec![]), vec![], (6, 30));
     add("sendwin2500-reset-late".into(), &|c| c.client.send_window = Some(2500), plan(vec![StreamPlan { dir: Dir::Uni, len: 9000, chunk: 700, end: End::Reset { after: 4200, code: 6 } }, sp(Dir::Bi, 6000, 500)]), plan(vec![]), vec![], (8, 32));
+    // redundant second reset() (what a handle's Drop does after an explicit reset): the stream's
+    // outstanding bytes leave the send window once
+    add("sendwin6000-reset-twice".into(), &|c| c.client.send_window = Some(6000), Plan { reset_twice: true, ..plan(vec![StreamPlan { dir: Dir::Uni, len: 12000, chunk: 1000, end: End::Reset { after: 3000, code: 6 } }, sp(Dir::Uni, 8000, 1000), sp(Dir::Uni, 8000, 1000)]) }, plan(vec![]), vec![], (6, 30));
+    add("sendwin2500-reset-twice".into(), &|c| c.client.send_window = Some(2500), Plan { reset_twice: true, ..plan(vec![StreamPlan { dir: Dir::Uni, len: 9000, chunk: 700, end: End::Reset { after: 1400, code: 6 } }, sp(Dir::Bi, 6000, 500)]) }, plan(vec![]), vec![], (8, 32));
+    // ... also after the peer stopped the stream (reset, failed finish, reset again)
+    add("sendwin6000-stopped-reset-twice".into(), &|c| c.client.send_window = Some(6000), Plan { reset_twice: true, reset_on_stopped: true, ..plan(vec![sp(Dir::Uni, 12000, 1000), sp(Dir::Uni, 8000, 1000), sp(Dir::Uni, 8000, 1000)]) }, Plan { stop: Some((0, 2000, 3)), ..plan(vec![]) }, vec![], (6, 30));
     // asymmetric per-stream limits: the three initial_max_stream_data_* parameters differ (quinn itself
     // always advertises one value for all three, so the transport parameters are re-encoded on the
     // way; the advertised values only bind the sender, the receiver's real window is larger)
